@@ -404,6 +404,22 @@ func (e *RegMulti) SafeFormatError(p errbase.Printer) error {
 }
 func (e *RegMulti) Unwrap() []error { return e.Es }
 
+// IsMulti: a multi-cause type that also has an Is method.
+type IsMulti struct {
+	Msg string
+	Es  []error
+}
+
+func (e *IsMulti) Error() string {
+	s := e.Msg
+	for _, c := range e.Es {
+		s += " / " + c.Error()
+	}
+	return s
+}
+func (e *IsMulti) Unwrap() []error      { return e.Es }
+func (e *IsMulti) Is(target error) bool { return target == error(Sentinel) }
+
 // ---------- registration ----------
 
 func key(e error) errbase.TypeKey { return errbase.GetTypeKey(e) }
@@ -452,9 +468,14 @@ func init() {
 	})
 
 	errbase.RegisterMultiCauseEncoder(key(&RegMulti{}), func(_ context.Context, err error) (string, []string, proto.Message) {
-		return err.(*RegMulti).Msg, nil, nil
+		m := err.(*RegMulti).Msg
+		return m, nil, &errorspb.StringPayload{Msg: m}
 	})
-	errbase.RegisterMultiCauseDecoder(key(&RegMulti{}), func(_ context.Context, causes []error, msg string, _ []string, _ proto.Message) error {
-		return &RegMulti{Msg: msg, Es: causes}
+	errbase.RegisterMultiCauseDecoder(key(&RegMulti{}), func(_ context.Context, causes []error, _ string, _ []string, payload proto.Message) error {
+		m, ok := payload.(*errorspb.StringPayload)
+		if !ok {
+			return nil
+		}
+		return &RegMulti{Msg: m.Msg, Es: causes}
 	})
 }
